@@ -451,6 +451,31 @@ async def _main(world: SchedWorld) -> None:
                 src.items.append(make_sched(op["sched"]))
                 world.fired("schedule_add")
                 world.rec("op_add", source=op["source"], id=op["sched"]["id"])
+            elif op["op"] == "create":
+                # a schedule created through the public kicker API: task.kicker().with_labels(..).schedule_by_time/cron(source, ...)
+                sp = op["sched"]
+                tk = world.extra["broker"].find_task(sp["task"])
+                kicker = tk.kicker().with_schedule_id(sp["id"])
+                if sp.get("labels"):
+                    kicker = kicker.with_labels(**{k: _dec(v) for k, v in sp["labels"].items()})
+                args = [sp["id"]] + list(sp.get("args", []))
+
+                async def create() -> None:
+                    try:
+                        if sp.get("cron") is not None:
+                            cron: Any = sp["cron"]
+                            if sp.get("cronspec"):
+                                from taskiq.scheduler.scheduled_task import CronSpec
+                                f = sp["cron"].split(" ")
+                                cron = CronSpec(minutes=f[0], hours=f[1], days=f[2], months=f[3], weekdays=f[4], offset=make_offset(sp.get("offset")))
+                            created = await kicker.schedule_by_cron(src, cron, *args, **(sp.get("kwargs") or {}))
+                        else:
+                            created = await kicker.schedule_by_time(src, make_time(sp["time"]), *args, **(sp.get("kwargs") or {}))
+                        world.rec("op_create", source=op["source"], id=sp["id"], got_id=created.schedule_id)
+                    except Exception as exc:  # noqa: BLE001
+                        world.rec("op_create_failed", source=op["source"], id=sp["id"], exc=type(exc).__name__)
+                world.fired("schedule_create")
+                loop.create_task(create())
             elif op["op"] == "remove":
                 src.items = [s for s in src.items if s.schedule_id != op["id"]]
                 world.fired("schedule_remove")
